@@ -74,7 +74,7 @@ func (p *flowProto) dataSetBytes(r *rand.Rand, t tpl, n int) ([]byte, string) {
 func (p *flowProto) histTpl(r *rand.Rand, id int) tpl {
 	for {
 		t := p.genTpl(r, id, r.Intn(4) == 0, true)
-		if n := recLen(p, t); n > 4 && allKnown(p, t) {
+		if n := minRecLen(p, t); n > 4 && allKnown(p, t) {
 			return t
 		}
 	}
@@ -104,7 +104,7 @@ func (p *flowProto) relength(r *rand.Rand, t tpl) tpl {
 		for _, s := range t.fields {
 			n.fields = append(n.fields, ch(s))
 		}
-		if changed && recLen(p, n) > 4 && allKnown(p, n) {
+		if changed && minRecLen(p, n) > 4 && allKnown(p, n) {
 			return n
 		}
 	}
